@@ -483,6 +483,10 @@ func buildBattery() []string {
 	// building containers with the value inside, copying, storing
 	add("[x, y]", "[x, y].sum()", "[x, y].kh()", "{'k': x}", "{'k': x}.k", "{'k': x}.values()", "[x] * 2", "[x] + [y]", "g = x; g", "g = [x, x]; g.len()",
 		"g = {'k': x}; g.k", "store('g', x)", "store('g', x); g", "g = x; g == x", "[x][0]", "[[x]][0][0]", "{'k': [x]}.k[0]")
+	// the same decoded value evaluated, called or computed several times in one script (lazily compiled bodies are cached
+	// in the value after the first use)
+	add("x; x; x", "[x, x, x]", "x + 1; x + 1", "x.compute(); x.compute(); x", "&x.compute() + 1; x", "i = 0; while i < 3 { g = x; i = i + 1 }; g",
+		"x(); x()", "x(1); x(1); x(1)", "[x(), x()]", "func h() { x }; h(); h(); x", "`{x}{x}`; x")
 	// use as a dictionary prototype and as dictionary key
 	add("{'__proto__': x}.a", "{'__proto__': x}.g", "g = {'__proto__': x}; g.len", "{x: 1}", "g = {}; g[x] = 1; g")
 	return b
@@ -754,6 +758,7 @@ func checkCase(c Case, s *rt.Section, o opts) (*rt.Failure, *stats) {
 	}
 	report := func(op string, pi *rt.PanicInfo, rerun func(e *env) *rt.PanicInfo) *rt.Failure {
 		// the same operation on the well-formed twin
+		twinToo := false
 		f := fresh()
 		if f != nil && rerun != nil {
 			var tpi *rt.PanicInfo
@@ -761,8 +766,10 @@ func checkCase(c Case, s *rt.Section, o opts) (*rt.Failure, *stats) {
 			if bp := rt.Guard(func() { tw = twinEnv(f) }); bp == nil && tw != nil {
 				tpi = rerun(tw)
 				if tpi != nil && tpi.Sig() == pi.Sig() {
+					// the statement asks for crash-free operations on every decoded value, so the panic counts; that
+					// the value built with the public constructors panics too says the defect is not in the decoder
 					st.twinSame[pi.Sig()]++
-					return nil
+					twinToo = true
 				}
 			}
 		}
@@ -772,7 +779,8 @@ func checkCase(c Case, s *rt.Section, o opts) (*rt.Failure, *stats) {
 		}
 		return s.NewFailure("crash-free-after-decode", pi.Sig(), rec,
 			fmt.Sprintf("decoding succeeded (traps found by inspection: %s) and then %s panics: %s\n%s", trapList(st.traps), op, pi.Value, clip(pi.Stack, 1800)),
-			"no panic (the same operation on a well-formed value of the same shape does not panic there)")
+			map[bool]string{false: "no panic (the same operation on a well-formed value of the same shape does not panic there)",
+				true: "no panic (the same operation panics on the value of the same shape built with the public constructors too: the defect is not the decoder's, the decoded value is booby-trapped all the same)"}[twinToo])
 	}
 
 	if !c.NoGo && !o.skipGo {
@@ -894,7 +902,7 @@ func account(s *rt.Section, c Case, st *stats, label string) {
 	}
 	for sig, n := range st.twinSame {
 		for i := 0; i < n; i++ {
-			s.Discard("panic also on the well-formed twin (C01 territory): " + sig)
+			s.Class("panic also on the well-formed twin: " + sig)
 		}
 	}
 }
@@ -952,7 +960,8 @@ func (g *gen) expr(level int) string {
 	a, b := n[0], n[1]
 	pool := []string{"", "1", "1.5", "'s'", "[1, 2]", "{'k': 1}", "null", a, a + " + 1", a + " + " + b, "this." + a, "this." + a + " + 1",
 		a + "[0]", a + "." + b, a + "()", "`{" + a + "}`", "return 5 ", "if " + a + " { 2 } else { 3 }", a + " = 1; " + a, "[" + a + ", " + b + "]",
-		"{'k': " + a + "}", a + " ?? 1", a + " == " + b, "func " + b + "() { 1 }", "1 +", "((((", ")", "\u0000", "'", "1 2 3", "\n", "长 + 1", a + ".sum()"}
+		"{'k': " + a + "}", a + " ?? 1", a + " == " + b, "func " + b + "() { 1 }", "1 +", "((((", ")", "\u0000", "'", "1 2 3", "\n", "长 + 1", a + ".sum()",
+		"// note", ";", " ; ; ", "if 0 { 1 }", "// " + a + "\n", "while 0 { }"}
 	if g.wf {
 		pool = pool[:24]
 	}
@@ -1442,7 +1451,7 @@ func enumDocs(deep bool) []string {
 			add(`{"t":6,"v":{"list":[` + a + `,` + b + `]}}`)
 		}
 	}
-	for _, e := range []string{"", "1", "g", "g + h", "this.g", "1 +", "return 5 ", "g()", "[g, h]", "g.sum()"} {
+	for _, e := range []string{"", "1", "g", "g + h", "this.g", "1 +", "return 5 ", "g()", "[g, h]", "g.sum()", "// note", ";", "if 0 { 1 }"} {
 		for _, a := range []string{"", `,"attrs":null`, `,"attrs":{}`, `,"attrs":[]`} {
 			add(`{"t":5,"v":{"expr":` + q(e) + a + `}}`)
 		}
@@ -1560,7 +1569,7 @@ func TestProp(t *testing.T) {
 						s.ClassN("scripts-ending-in-error", int64(st.scriptErrs))
 						for sig, n := range st.twinSame {
 							for i := 0; i < n; i++ {
-								s.Discard("panic also on the well-formed twin (C01 territory): " + sig)
+								s.Class("panic also on the well-formed twin: " + sig)
 							}
 						}
 					}
